@@ -50,7 +50,9 @@ def main():
         for sid, out in ex.map(run_one, [(s, props) for s in seeds]):
             own = sid.split("-")[0]
             flag = "CAUGHT" if any(v.startswith("VIOLATION") for v in out.values()) else ("AERR  " if out else "missed")
-            caught += flag == "CAUGHT"
+            if flag == "CAUGHT" and not out.get(own, "").startswith("VIOLATION"):
+                flag = "caught-by-other"
+            caught += flag.lower().startswith("caught")
             print(f"{sid:8s} {flag}  " + " | ".join(f"{k}: {v}" for k, v in out.items())[:230])
     print(f"caught {caught}/{len(seeds)} (props: {','.join(props)})")
 main()
